@@ -146,7 +146,7 @@ def compare(exp, got):
     return d
 
 
-def run_replay(ctx, exe, args, total, log_path, timeout=3000):
+def run_replay(ctx, exe, args, total, log_path, timeout=3000, unit_div=1, max_fatal=40):
     """Like vlib.run_batches, for a build in which ASan reports and UBSan vptr reports are recoverable: every report is attributed to
     the unit announced by the driver's `@@X n` stderr marker; a fatal exit is recorded for the last announced unit and the run resumes."""
     import re
@@ -192,15 +192,143 @@ def run_replay(ctx, exe, args, total, log_path, timeout=3000):
                     pass
         if rc == 0:
             break
-        x = units[-1][0] if units else k
+        x = units[-1][0] if units else k * unit_div
         with open(log_path, "a") as f:
             f.write('\n{"e":"Aborted","x":%d}\n' % x)
+        x = x // unit_div
         nfatal += 1
-        if nfatal >= 40 or len(deaths) > 2000:
+        if nfatal >= max_fatal or len(deaths) > 2000:
             ctx.rep.note("replay stopped at behaviour %d of %d after %d fatal exits / %d sanitizer reports" % (x, total, nfatal, len(deaths)))
             break
         k = x + 1
     return sums, deaths
+
+
+RACE_PIPES = {
+    "si": dict(kind=["stop_imm", "src"], kids=[[2], []], root=1, text="stop_imm(src)", srcs=[2], trig=[]),
+    "tu": dict(kind=["take_until", "src", "src"], kids=[[2, 3], [], []], root=1, text="take_until(src,src)", srcs=[2], trig=[3]),
+    "te": dict(kind=["type_erase", "src"], kids=[[2], []], root=1, text="type_erase(src)", srcs=[2], trig=[]),
+    "si_tu": dict(kind=["stop_imm", "take_until", "src", "src"], kids=[[2], [3, 4], [], []], root=1, text="stop_imm(take_until(src,src))", srcs=[3], trig=[4]),
+    "tu_si": dict(kind=["take_until", "stop_imm", "src", "src"], kids=[[2, 4], [3], [], []], root=1, text="take_until(stop_imm(src),src)", srcs=[3], trig=[4]),
+    "te_tu": dict(kind=["type_erase", "take_until", "src", "src"], kids=[[2], [3, 4], [], []], root=1, text="type_erase(take_until(src,src))", srcs=[3], trig=[4]),
+}
+CONS_NAME = {0: "reduce", 1: "for_each", 2: "manual"}
+
+
+def race_scenarios(tier, rng):
+    """Scenarios of the controlled-thread driver: every source operation is deferred, so that it is completed by its own thread."""
+    quick = tier == "quick"
+    out = []
+
+    def srcs(trigger):
+        r = []
+        for n, end in (((1, "d"), (0, "d"), (0, "e")) if trigger else ((1, "d"), (1, "e"), (0, "d"), (0, "e"), (2, "d"))):
+            for onStop in ("ignore", "done"):
+                for cl in ("id", "dd"):
+                    r.append(S(n, end, [0] * (n + 1), onStop, cl))
+        return r
+    plan = [("si", (0, 2), (True,), 8 if quick else 80), ("tu", (0, 2), (False, True), 10 if quick else 160), ("te", (0, 2), (True,), 3 if quick else 30),
+            ("si_tu", (0, 2), (True, False), 2 if quick else 40), ("tu_si", (0,), (True, False), 2 if quick else 40), ("te_tu", (0,), (True,), 1 if quick else 20)]
+    for kind, conss, stoppers, take in plan:
+        P = RACE_PIPES[kind]
+        combos = []
+        for cons in conss:
+            for st in stoppers:
+                for ms in srcs(False):
+                    for ts in (srcs(True) if P["trig"] else [None]):
+                        combos.append((cons, st, ms, ts))
+        rng.shuffle(combos)
+        # always keep the canonical race: value-yielding source that ignores stop, inline cleanup, both consumers
+        base = [c for c in combos if c[2] == S(1, "d", [0, 0], "ignore", "id") and c[1] == stoppers[0] and (c[3] is None or c[3] == S(1, "d", [0], "ignore", "id"))]
+        seen, sel = set(), []
+        for c in base + combos:
+            k = json.dumps(c, sort_keys=True)
+            if k not in seen:
+                seen.add(k)
+                sel.append(c)
+        for cons, st, ms, ts in sel[:take]:
+            src = {str(P["srcs"][0]): ms}
+            if ts is not None:
+                src[str(P["trig"][0])] = ts
+            out.append(dict(kind=kind, stopper=st, src=src, drvNexts=ms["len"] + 1,
+                            pipe=dict(cons=cons, kind=P["kind"], kids=P["kids"], arg=[0] * len(P["kind"]), root=P["root"]),
+                            text="race:%s(%s)" % (CONS_NAME[cons], P["text"])))
+    for i, sc in enumerate(out):
+        sc["id"] = i
+    return out
+
+
+def trig_nodes(pipe):
+    trig = set()
+    for q, k in enumerate(pipe["kind"], 1):
+        if k == "take_until":
+            stack = [pipe["kids"][q - 1][1]]
+            while stack:
+                m = stack.pop()
+                trig.add(m)
+                stack += pipe["kids"][m - 1]
+    return trig
+
+
+def run_race(ctx):
+    """Controlled threads: source completer(s), stopper, consumer; DFS with preemption bound + seeded random schedules."""
+    rep = ctx.rep
+    rep.assume("races: sequentially consistent interleavings at schedule-point granularity (stream.* sites at the atomics of stop_immediately / take_until / "
+               "type_erase, stop.* sites of inplace_stop_source, spin_wait); one completer thread per harness source, one stopper, one consumer thread")
+    scns = race_scenarios(ctx.tier, ctx.rng)
+    sp = os.path.join(ctx.work, "race_scenarios.json")
+    json.dump(scns, open(sp, "w"))
+    exe = vlib.build(ctx, "stream_race_driver", [os.path.join(HERE, "driver_race.cpp")], lib=["inplace_stop_token.cpp", "async_stack.cpp", "exception.cpp"],
+                     incs=[HERE], opt="-O0", recover=True, extra=["-fsanitize-recover=vptr"])
+    DIV = 100000
+    runs = [("dfs", ["--mode", "dfs", "--scenarios", sp, "--bound", 2 if ctx.quick else 3, "--cap", 60 if ctx.quick else 1200]),
+            ("random", ["--mode", "random", "--scenarios", sp, "--seed", ctx.seed, "--cap", 25 if ctx.quick else 400])]
+    for mode, args in runs:
+        lp = os.path.join(ctx.work, "race_%s.ndjson" % mode)
+        t0 = time.time()
+        sums, deaths = run_replay(ctx, exe, args, len(scns), lp, timeout=2400, unit_div=DIV, max_fatal=12)
+        execs = sum(s.get("execs", 0) for s in sums)
+        rep.evaluations += execs
+        tainted = set()
+        for d in deaths:
+            x = d["x"]
+            sc = scns[x // DIV] if x // DIV < len(scns) else None
+            tainted.add(x)
+            kinds = sorted(set(sc["pipe"]["kind"])) if sc else []
+            sig = "%s|%s:%s:%s@%s" % ("take_until" if "take_until" in kinds else "-", d["event"], d.get("asan", ""), d.get("frame", ""), ",".join(d.get("marks", [])))
+            rep.violation(dict(engine="stream", mode="race-" + mode, event=d["event"], shape=sc["text"] if sc else "?", kinds=kinds, scenario=sc, sig=sig,
+                               asan=d.get("asan"), frame=d.get("frame"), where=d.get("where"),
+                               what="%s in %s schedule %d of %s [sources %s, stopper %s]: %s %s" % (
+                                   d["event"], mode, x % DIV, sc["text"] if sc else "?", json.dumps(sc["src"]) if sc else "", sc["stopper"] if sc else "",
+                                   d.get("asan", ""), d.get("frame", "")), detail=d.get("stderr_tail")))
+        n, rejected = vlib.validate_batched(ctx, "stream", "StreamMon", lp, skip_x=tainted, max_reports=6)
+        nd = 0
+        for ex in vlib.split_executions(lp):
+            rep.distinct.add(hash(("race", "".join(ex[1][1:]))))
+            nd += 1
+        rep.note("race %s: %d scenarios, %d schedules executed, %d validated against StreamMon, %d sanitizer/crash events, %.0fs" % (
+            mode, len(scns), execs, n, len(deaths), time.time() - t0))
+        for rj in rejected:
+            x = rj["x"]
+            sc = scns[x // DIV] if x is not None and x // DIV < len(scns) else None
+            nxt = rj["events"][rj["prefix"]] if rj.get("prefix") is not None and rj["prefix"] < len(rj["events"]) else None
+            kinds = sorted(set(sc["pipe"]["kind"])) if sc else []
+            role = ""
+            if nxt and "s" in nxt and sc:
+                role = ":role=" + ("trigger" if nxt["s"] in trig_nodes(sc["pipe"]) else "source")
+            rep.violation(dict(engine="stream", mode="race-" + mode, event="MonitorReject", monitor="StreamMon", shape=sc["text"] if sc else "?", kinds=kinds,
+                               scenario=sc, rejected_event=nxt, sig="%s|%s%s" % ("take_until" if "take_until" in kinds else "-", ev_sig(nxt), role),
+                               what="StreamMon rejects %s schedule %s of %s at event %s (%s) [sources %s, stopper %s]" % (
+                                   mode, (x % DIV) if x is not None else "?", sc["text"] if sc else "?", rj.get("prefix"), json.dumps(nxt),
+                                   json.dumps(sc["src"]) if sc else "", sc["stopper"] if sc else ""),
+                               events=rj["events"][:200]))
+        if mode == "dfs":
+            ex = vlib.split_executions(lp)
+            if ex:
+                e = ex[len(ex) // 3]
+                rep.sample(dict(kind="recorded-race-trace", scenario=scns[e[0] // DIV]["text"] if e[0] is not None else None, events=[json.loads(l) for l in e[1][:40]]))
+    rep.rule("one race evaluation = one schedule (DFS with preemption bound / seeded random) of a scenario (pipeline x source scripts x stopper) on the real code "
+             "under the thread controller, event log validated against StreamMon")
 
 
 def ev_sig(e):
@@ -425,6 +553,8 @@ def run(ctx):
         sh, steps = desc(b)
         rep.sample(dict(kind="tlc-behaviour", shape=sh["text"], cfg=b["cfg"],
                         steps=[dict(k=s["k"], n=s["n"], expect_elems=[e["x"] for e in s["exp"]["elems"]], expect_res=s["exp"]["res"]) for s in b["steps"]]))
+    if not only or os.environ.get("VERIF_STREAM_RACE"):
+        run_race(ctx)
     rep.rule("one evaluation = one TLC behaviour (pipeline shape x source scripts x predicate scripts x external step sequence: start, completion of a deferred "
              "source next()/cleanup(), stop request, scheduler item, manual next()/cleanup()) replayed on the real adaptors, the observation compared after every "
              "step and the event log validated by TLC against StreamMon; distinct_nontrivial = distinct (shape, scripts, step sequence) with more than one step")
